@@ -128,6 +128,9 @@ class _Order:
             return
         if isinstance(e, ast.Attribute):
             if self.trivial(e):
+                if any(x is self.use for x in ast.walk(e)):
+                    self.found = True
+                    self.conditional = cond
                 return
             self.visit(e.value, cond)
             if not self.found:
